@@ -253,11 +253,34 @@ class BaseIsAsyncFunction:
         return is_async_fn(node)
 
 
+class _SameTreeNode:
+    """Native stand-in for the parser's root node: two parses of the same text give DIFFERENT tree objects, so native
+    equality is structural (same kind, same byte range, same text, same s-expression); everything else is delegated."""
+
+    def __init__(self, node):
+        self._n = node
+
+    def __getattr__(self, name):
+        return getattr(self._n, name)
+
+    def __eq__(self, other):
+        o = other._n if isinstance(other, _SameTreeNode) else other
+        n = self._n
+        return o is not None and hasattr(o, "start_byte") and \
+            (o.type, o.start_byte, o.end_byte, o.text, str(o)) == (n.type, n.start_byte, n.end_byte, n.text, str(n))
+
+    def __ne__(self, other):
+        return not self.__eq__(other)
+
+    def __hash__(self):
+        return hash((self._n.type, self._n.start_byte, self._n.end_byte))
+
+
 def _native_parse(code):
     """The tree-sitter-rust parse tree itself (NOT through the function under proof)."""
     import tree_sitter_rust as tsrust
     from tree_sitter import Language, Parser
-    return Parser(Language(tsrust.language())).parse(bytes(code, "utf8")).root_node
+    return _SameTreeNode(Parser(Language(tsrust.language())).parse(bytes(code, "utf8")).root_node)
 
 
 # the root node of the tree-sitter-rust parse of a source text (the parser is trusted; error recovery included: a tree
